@@ -1,7 +1,11 @@
 // VARIANTS: rel
 // C08 - answers are invariant under rigid motions of world plus query.
+// EXTRA: -fno-access-control
 #include "kit.h"
 #include "worlds.h"
+#include "world_builder/features/continental_plate.h"
+#include "world_builder/features/oceanic_plate.h"
+#include "world_builder/features/mantle_layer.h"
 using namespace kit;
 using namespace wbgen;
 using WorldBuilder::World;
@@ -208,6 +212,59 @@ namespace
       if (!(std::fabs(got[k] - want[k]) <= 1e-9)) { ctx.violation(sigbase + "/grains/in-" + tn(want[5]), detail()); return; }
   }
 
+  // Depth surfaces of the moved world: is a triangulation incomplete (sum of its triangle areas smaller than the feature's polygon), and if so, are the
+  // nodes degenerate up to rounding (three of them collinear / four cocircular within 1e-12 relative)? delaunator-cpp, which the library uses, has
+  // non-robust predicates and is known to give up in that situation (known finding); an incomplete triangulation of nodes in general position is not known.
+  std::string surface_defect(WorldBuilder::World &w)
+  {
+    using namespace WorldBuilder;
+    std::string worst;
+    auto scan = [&](const std::vector<Point<2>> &poly, const Objects::Surface &s)
+    {
+      if (s.constant_value || s.triangles.empty()) return;
+      long double pa = 0;
+      for (size_t i = 0; i < poly.size(); ++i) { const auto &a = poly[i], &b = poly[(i+1)%poly.size()]; pa += static_cast<long double>(a[0])*b[1] - static_cast<long double>(b[0])*a[1]; }
+      pa = fabsl(pa) / 2;
+      long double ta = 0;
+      std::vector<std::array<double,2>> nodes;
+      for (auto &q : poly) nodes.push_back({{q[0], q[1]}});
+      for (auto &t : s.triangles)
+        {
+          ta += fabsl((static_cast<long double>(t[1][0])-t[0][0])*(static_cast<long double>(t[2][1])-t[0][1]) - (static_cast<long double>(t[2][0])-t[0][0])*(static_cast<long double>(t[1][1])-t[0][1])) / 2;
+          for (int k = 0; k < 3; ++k) { const std::array<double,2> n = {{t[k][0], t[k][1]}}; if (std::find(nodes.begin(), nodes.end(), n) == nodes.end()) nodes.push_back(n); }
+        }
+      if (!(ta < pa * (1 - 1e-9L))) return;
+      std::string cause = "nodes-in-general-position";
+      const size_t n = nodes.size();
+      bool cocircular = false, collinear = false;
+      for (size_t a = 0; a < n; ++a) for (size_t b = a+1; b < n; ++b) for (size_t c = b+1; c < n; ++c)
+            {
+              const long double ux = static_cast<long double>(nodes[b][0])-nodes[a][0], uy = static_cast<long double>(nodes[b][1])-nodes[a][1], vx = static_cast<long double>(nodes[c][0])-nodes[a][0], vy = static_cast<long double>(nodes[c][1])-nodes[a][1];
+              const long double cr = fabsl(ux*vy - uy*vx), sc = std::max(ux*ux+uy*uy, vx*vx+vy*vy);
+              if (cr <= 1e-12L * sc) collinear = true;
+              for (size_t d = c+1; d < n && !collinear; ++d)
+                {
+                  // in-circle determinant of d relative to the circle through a, b, c (coordinates relative to d)
+                  const long double ax = static_cast<long double>(nodes[a][0])-nodes[d][0], ay = static_cast<long double>(nodes[a][1])-nodes[d][1], bx = static_cast<long double>(nodes[b][0])-nodes[d][0], by = static_cast<long double>(nodes[b][1])-nodes[d][1],
+                                    cx = static_cast<long double>(nodes[c][0])-nodes[d][0], cy = static_cast<long double>(nodes[c][1])-nodes[d][1];
+                  const long double det = (ax*ax+ay*ay)*(bx*cy-by*cx) - (bx*bx+by*by)*(ax*cy-ay*cx) + (cx*cx+cy*cy)*(ax*by-ay*bx);
+                  const long double m = std::max(std::max(ax*ax+ay*ay, bx*bx+by*by), cx*cx+cy*cy);
+                  if (fabsl(det) <= 1e-12L * m * m) cocircular = true;
+                }
+            }
+      if (collinear) cause = "three-nodes-collinear-up-to-rounding";
+      else if (cocircular) cause = "four-nodes-cocircular-up-to-rounding";
+      if (worst.empty() || cause == "nodes-in-general-position") worst = cause;
+    };
+    for (auto &f : w.parameters.features)
+      {
+        if (auto *p = dynamic_cast<Features::ContinentalPlate *>(f.get())) { scan(p->coordinates, p->min_depth_surface); scan(p->coordinates, p->max_depth_surface); }
+        if (auto *p = dynamic_cast<Features::OceanicPlate *>(f.get())) { scan(p->coordinates, p->min_depth_surface); scan(p->coordinates, p->max_depth_surface); }
+        if (auto *p = dynamic_cast<Features::MantleLayer *>(f.get())) { scan(p->coordinates, p->min_depth_surface); scan(p->coordinates, p->max_depth_surface); }
+      }
+    return worst.empty() ? std::string() : "/moved-world-has-an-incomplete-depth-surface-triangulation/" + worst;
+  }
+
   void run_cartesian(const std::vector<Motion> &motions, uint64_t idx, Ctx &ctx)
   {
     static const int c_cmp = Ctx::counter_id("answers_compared"), c_skip = Ctx::counter_id("skipped_near_boundary"), c_exact = Ctx::counter_id("exact_comparisons_incl_boundary_points"), c_2d = Ctx::counter_id("answers_compared_2d");
@@ -223,16 +280,18 @@ namespace
     auto w = make_world(text);
     const auto pr = probes(false, o.area_only, o.long_traces, o.many_depth_points);
     Tally t;
-    // class of a query that throws on the moved world: which lookup gave up, and whether the rotation is a hair off a quarter turn
-    // (rectangular plates then have corners that are cocircular up to rounding, the situation in which the triangulation of a depth surface can come out incomplete)
+    // class of a query that throws on the moved world: which lookup gave up; every signature of this case also says whether a depth surface of the
+    // moved world came out incompletely triangulated and whether its nodes are degenerate up to rounding (see surface_defect)
     auto throw_class = [&](const std::string &what)
     {
       std::string c;
       if (what.find("not in any triangle") != std::string::npos) c += "/depth-surface-lookup-finds-no-triangle";
-      const double r = std::fabs(std::remainder(m.angle_deg, 90.0));
-      if (r > 0 && r < 0.01) c += "/rotation-within-0.01-degrees-of-a-quarter-turn";
       return c;
     };
+    static const int c_defect = Ctx::counter_id("moved_worlds_with_an_incomplete_depth_surface_triangulation");
+    const std::string defect = surface_defect(*w);
+    if (!defect.empty()) ctx.count(c_defect);
+    const std::string CART = "C08/cartesian" + defect;
     for (size_t i = 0; i < pr.size(); ++i)
       {
         const bool exact = m.exact && o.area_only;
@@ -243,12 +302,12 @@ namespace
         try { got = w->properties(p, pr[i].depth, REQ); }
         catch (const std::exception &e)
           {
-            ctx.violation("C08/cartesian/query-on-moved-world-throws" + throw_class(e.what()), JObj().str("what", std::string(e.what()).substr(0, 500)).str("motion", m.name).str("base", BASE_NAMES[b]).raw("moved_point", jarr(p)).num("depth", pr[i].depth).str("moved_world", text).done());
+            ctx.violation(CART + "/query-on-moved-world-throws" + throw_class(e.what()), JObj().str("what", std::string(e.what()).substr(0, 500)).str("motion", m.name).str("base", BASE_NAMES[b]).raw("moved_point", jarr(p)).num("depth", pr[i].depth).str("moved_world", text).done());
             continue;
           }
         ctx.eval();
         const bool exact_cmp = exact && !base.robust[i];
-        compare(got, base.ans[i], exact_cmp, std::string("C08/cartesian/") + (exact_cmp ? "exact-motion-boundary-point" : "3d"), [&]()
+        compare(got, base.ans[i], exact_cmp, CART + "/" + (exact_cmp ? "exact-motion-boundary-point" : "3d"), [&]()
         {
           return JObj().str("motion", m.name).str("base", BASE_NAMES[b]).raw("base_point", jarr(query_point(false, pr[i].x, pr[i].y, pr[i].depth))).raw("moved_point", jarr(p)).num("depth", pr[i].depth)
                  .raw("base_answer", jarr(base.ans[i])).raw("moved_answer", jarr(got)).raw("request", jreq(REQ)).str("moved_world", text).str("base_world", base.text).done();
@@ -265,12 +324,12 @@ namespace
         try { got = w->properties(q, pr2[i].depth, REQ); }
         catch (const std::exception &e)
           {
-            ctx.violation("C08/cartesian/2d-query-on-moved-world-throws" + throw_class(e.what()), JObj().str("what", std::string(e.what()).substr(0, 500)).str("motion", m.name).str("base", BASE_NAMES[b]).raw("point_2d", jarr(q)).num("depth", pr2[i].depth).str("moved_world", text).done());
+            ctx.violation(CART + "/2d-query-on-moved-world-throws" + throw_class(e.what()), JObj().str("what", std::string(e.what()).substr(0, 500)).str("motion", m.name).str("base", BASE_NAMES[b]).raw("point_2d", jarr(q)).num("depth", pr2[i].depth).str("moved_world", text).done());
             continue;
           }
         ctx.eval();
         ++n2;
-        compare(got, base.ans2[i], false, "C08/cartesian/2d", [&]()
+        compare(got, base.ans2[i], false, CART + "/2d", [&]()
         {
           return JObj().str("motion", m.name).str("base", BASE_NAMES[b]).raw("point_2d", jarr(q)).num("depth", pr2[i].depth).raw("base_answer", jarr(base.ans2[i])).raw("moved_answer", jarr(got))
                  .raw("request", jreq(REQ)).str("moved_world", text).str("base_world", base.text).done();
@@ -380,7 +439,7 @@ int main(int argc, char **argv)
                       "exact motions (quarter turns, translations by multiples of half a lattice unit) of the area-feature world must reproduce tag and compositions exactly at points ON polygon edges, corners and depth limits as well",
                       "velocities are not compared (vectors are not invariant under rotation and the property does not list them)"
                      };
-  spec.counters = {"answers_compared", "skipped_near_boundary", "exact_comparisons_incl_boundary_points", "longitude_alias_queries", "answers_compared_2d"};
+  spec.counters = {"answers_compared", "skipped_near_boundary", "exact_comparisons_incl_boundary_points", "longitude_alias_queries", "answers_compared_2d", "moved_worlds_with_an_incomplete_depth_surface_triangulation"};
   spec.quick_deadline_s = 240;
   spec.thorough_deadline_s = 1200;
   return driver(argc, argv, spec, [](const std::string &tier)
